@@ -3,7 +3,7 @@
 use crate::util::*;
 use jammdb::{Bucket, Data, OpenOptions, Tx, DB};
 use std::collections::HashMap;
-use std::io::{BufRead, BufWriter, Write};
+use std::io::{BufRead, Write};
 use std::ops::Bound;
 use std::panic::{catch_unwind, AssertUnwindSafe};
 
@@ -630,7 +630,12 @@ pub fn main(args: &[String]) {
     let inp = std::fs::File::open(&args[0]).expect("open input");
     let out = std::fs::File::create(&args[1]).expect("create output");
     let dbpath = args.get(2).cloned().unwrap_or_else(|| format!("/dev/shm/jh-{}.db", std::process::id()));
-    let mut out = BufWriter::new(out);
+    // The transcript is collected in memory and written out only while no file-size limit is in force: the
+    // `limit` operation lowers RLIMIT_FSIZE for the whole process, and a flush of the transcript inside
+    // that window would fail.
+    let mut out = out;
+    let mut buf: Vec<u8> = Vec::new();
+    let mut limited = false;
     install_note_hook();
     let mut env = Env::new(&dbpath);
     let watchdog_secs: u32 = std::env::var("JH_WATCHDOG").ok().and_then(|v| v.parse().ok()).unwrap_or(120);
@@ -640,9 +645,13 @@ pub fn main(args: &[String]) {
         if line.is_empty() || line.starts_with('#') {
             continue;
         }
+        if !limited && buf.len() > (1 << 16) {
+            out.write_all(&buf).unwrap();
+            buf.clear();
+        }
         if line.starts_with('!') {
             // an operation that was performed when the (golden) file was created: only the model replays it
-            writeln!(out, "{}", line).unwrap();
+            writeln!(buf, "{}", line).unwrap();
             continue;
         }
         let f: Vec<&str> = line.split(' ').collect();
@@ -653,12 +662,34 @@ pub fn main(args: &[String]) {
             env.reset();
             unsafe { SNAP_BASE = env.snap; }
             env = Env::new(&dbpath);
+            if limited {
+                // a history that ended while limited: lift the limit
+                unsafe {
+                    let rl = libc::rlimit { rlim_cur: libc::RLIM_INFINITY, rlim_max: libc::RLIM_INFINITY };
+                    libc::setrlimit(libc::RLIMIT_FSIZE, &rl);
+                }
+                limited = false;
+            }
+            // the driver attributes a death to the last history whose header reached the transcript
+            out.write_all(&buf).unwrap();
+            buf.clear();
             writeln!(out, "{}", line).unwrap();
+            out.flush().unwrap();
             continue;
         }
         let outcome = env.exec(&f);
-        writeln!(out, "{} => {}", line, outcome).unwrap();
+        if f[0] == "limit" {
+            limited = f.get(1).map(|x| *x != "inf").unwrap_or(false);
+        }
+        writeln!(buf, "{} => {}", line, outcome).unwrap();
     }
+    if limited {
+        unsafe {
+            let rl = libc::rlimit { rlim_cur: libc::RLIM_INFINITY, rlim_max: libc::RLIM_INFINITY };
+            libc::setrlimit(libc::RLIMIT_FSIZE, &rl);
+        }
+    }
+    out.write_all(&buf).unwrap();
     env.reset();
     out.flush().unwrap();
 }
